@@ -120,6 +120,15 @@ pub fn cmd_ops(r: &mut Runner, t: &[&str]) -> String {
             let got_s = show_items(&items);
             let want_s = show_items(&want);
             r.check(got_s == want_s, || format!("C05 {} over {}: got {} want {}", kind, t[2], got_s, want_s));
+            // the same operation through map::OpBuilder and set::OpBuilder
+            for (label, has_values, got) in crate::wrap::ops_paths(kind, &streams, &fsts, &sentinel, &sel) {
+                let same = if has_values {
+                    show_items(&got) == got_s
+                } else {
+                    got.iter().map(|x| &x.0).collect::<Vec<_>>() == items.iter().map(|x| &x.0).collect::<Vec<_>>()
+                };
+                r.check(same, || format!("C05 {} over {} through {}: got {} but raw::OpBuilder yields {}", kind, t[2], label, show_items(&got), got_s));
+            }
             got_s
         }
         "disjoint" | "subset" | "superset" => {
@@ -143,6 +152,9 @@ pub fn cmd_ops(r: &mut Runner, t: &[&str]) -> String {
                 _ => kb.iter().all(|x| ka.contains(x)),
             };
             r.check(got == want, || format!("C05 is_{} on {}: got {} want {}", kind, t[2], got, want));
+            for (label, g2) in crate::wrap::pred_paths(kind, &streams, &fsts, sel(1), &sentinel) {
+                r.check(g2 == want, || format!("C05 is_{} on {} through {}: got {} want {}", kind, t[2], label, g2, want));
+            }
             format!("bool {}", got)
         }
         _ => "badop".into(),
